@@ -50,6 +50,8 @@ type env struct {
 	auth  sign.Scheme
 	rng   *vh.Rng
 	rep   *vh.Report
+	// forceIdx, when set, gives the node indices of the next fresh scenario (instead of a random sorted list)
+	forceIdx []int
 }
 
 func (e *env) scalar(v int64) kyber.Scalar { return e.suite.Scalar().SetInt64(v) }
@@ -81,11 +83,12 @@ const (
 	dConflict    // two different bundles
 	dForgedSig   // invalid signature
 	dBadPublic   // public polynomial unrelated to the shares
+	dBadIndexAt  // a deal for a share index outside the new group which falls into a gap of the index list: Pos valid deals precede it
 	dNumFaults
 )
 
 var dName = []string{"honest", "absent", "bad-share", "misdirected-share", "bad-share-index", "wrong-threshold",
-	"wrong-session-id", "duplicate-bundle", "conflicting-bundles", "forged-signature", "unrelated-public-poly"}
+	"wrong-session-id", "duplicate-bundle", "conflicting-bundles", "forged-signature", "unrelated-public-poly", "bad-share-index-at-position"}
 
 const (
 	rHonest = iota
@@ -121,8 +124,12 @@ var jName = []string{"honest", "missing", "invalid-share", "wrong-session-id", "
 
 type fault struct {
 	Deal, Resp, Just int
-	Victim           int // party id of the (honest) holder receiving the bad deal
-	Target           int // party id of the (honest) dealer falsely accused
+	Victim           int  // party id of the (honest) holder receiving the bad deal
+	Target           int  // party id of the (honest) dealer falsely accused
+	Pos              int  // dBadIndexAt: number of valid deals listed before the out-of-range one (DealBundle.Hash sorts by share index)
+	BadIdx           int  // dBadIndexAt: the out-of-range share index used (set when the bundle is made)
+	Unsol            bool // the dealer broadcasts a justification bundle (with fault Just) even when none is due:
+	// it behaves as its Deal / Resp say until the justification phase and then speaks up unasked
 }
 
 // ------------------------------------------------------------------ parties, scenario
@@ -180,8 +187,16 @@ func (sc *scen) describe() map[string]interface{} {
 	var fs []string
 	for _, p := range sc.parties {
 		if p.faulty {
+			dn := dName[p.f.Deal]
+			if p.f.Deal == dBadIndexAt {
+				dn += fmt.Sprintf("(share index %d, sorted after %d valid deals)", p.f.BadIdx, p.f.Pos)
+			}
+			jn := jName[p.f.Just]
+			if p.f.Unsol {
+				jn += "(bundle broadcast even if no justification is due)"
+			}
 			fs = append(fs, fmt.Sprintf("party%d(old=%d,new=%d): deal=%s victim=%d resp=%s target=%d just=%s", p.id, p.oidx, p.nidx,
-				dName[p.f.Deal], p.f.Victim, rName[p.f.Resp], p.f.Target, jName[p.f.Just]))
+				dn, p.f.Victim, rName[p.f.Resp], p.f.Target, jn))
 		}
 	}
 	var oi, ni []int
@@ -232,6 +247,9 @@ func newScen(e *env, kind string, fast bool, nOld, tOld, nNew, tNew int) *scen {
 	}
 	if !sc.reshare {
 		idx := indices(rng, nNew)
+		if len(e.forceIdx) == nNew {
+			idx = e.forceIdx
+		}
 		for i := 0; i < nNew; i++ {
 			p := mk()
 			p.oidx, p.nidx = idx[i], idx[i]
@@ -373,6 +391,8 @@ func (sc *scen) assignFaults(count int, pick func(i int) (int, int, int)) {
 		d, r, j := pick(i)
 		i++
 		p.f = fault{Deal: d, Resp: r, Just: j, Victim: -1, Target: -1}
+		p.f.Pos = rng.Intn(sc.nNew + 1)
+		p.f.Unsol = rng.Chance(50)
 		if hn := sc.honestNew(); len(hn) > 0 {
 			p.f.Victim = hn[rng.Intn(len(hn))].id
 		}
@@ -380,7 +400,7 @@ func (sc *scen) assignFaults(count int, pick func(i int) (int, int, int)) {
 			p.f.Target = ho[rng.Intn(len(ho))].id
 		}
 		if p.oidx < 0 {
-			p.f.Deal, p.f.Just = dHonest, jHonest
+			p.f.Deal, p.f.Just, p.f.Unsol = dHonest, jHonest, false
 		}
 		if p.nidx < 0 {
 			p.f.Resp = rHonest
@@ -509,6 +529,16 @@ func (sc *scen) mutateDeals(p *party, base *dkg.DealBundle) []*dkg.DealBundle {
 		sc.spoilDealFor(b, p, victim, true)
 	case dBadIndex:
 		b.Deals = append(b.Deals, dkg.Deal{ShareIndex: 1000 + uint32(sc.e.rng.Intn(5)), EncryptedShare: sc.e.rng.Bytes(40)})
+	case dBadIndexAt:
+		// DealBundle.Hash (signing, and signature verification at every receiver) sorts the deals by share
+		// index, so the place of the out-of-range deal is decided by its value: an index missing from the
+		// node list that lies between the indices of two holders (or below / above all of them)
+		v, pos := sc.bogusIndexAt(b.Deals, p.f.Pos)
+		p.f.Pos, p.f.BadIdx = pos, int(v)
+		bad := dkg.Deal{ShareIndex: v, EncryptedShare: sc.e.rng.Bytes(40)}
+		ds := append([]dkg.Deal{}, b.Deals[:pos]...)
+		ds = append(ds, bad)
+		b.Deals = append(ds, b.Deals[pos:]...)
 	case dWrongThr:
 		if sc.e.rng.Bool() && len(b.Public) > 1 {
 			b.Public = b.Public[:len(b.Public)-1]
@@ -615,7 +645,87 @@ func (sc *scen) mutateResps(p *party, base *dkg.ResponseBundle) []*dkg.ResponseB
 	return res
 }
 
+func isIncluded(l []dkg.Node, i uint32) bool {
+	for _, n := range l {
+		if n.Index == i {
+			return true
+		}
+	}
+	return false
+}
+
+// bogusIndexAt picks a share index outside the new group that sorts after exactly
+// `want` of the given (valid) deals; when the index list has no gap there, the
+// nearest place that has one (above all indices there always is).
+func (sc *scen) bogusIndexAt(deals []dkg.Deal, want int) (uint32, int) {
+	var s []int
+	for _, d := range deals {
+		s = append(s, int(d.ShareIndex))
+	}
+	sort.Ints(s)
+	if want < 0 || want > len(s) {
+		want = len(s)
+	}
+	at := func(k int) (uint32, bool) {
+		lo, hi := -1, 1<<31
+		if k > 0 {
+			lo = s[k-1]
+		}
+		if k < len(s) {
+			hi = s[k]
+		} else {
+			lo += 90 + sc.e.rng.Intn(5) // far above, as a careless or malicious dealer would write it
+		}
+		for v := lo + 1; v < hi && v < lo+2000; v++ {
+			if !isIncluded(sc.newNodes, uint32(v)) {
+				return uint32(v), true
+			}
+		}
+		return 0, false
+	}
+	for dist := 0; dist <= len(s); dist++ {
+		for _, k := range []int{want - dist, want + dist} {
+			if k < 0 || k > len(s) {
+				continue
+			}
+			if v, ok := at(k); ok {
+				return v, k
+			}
+		}
+	}
+	panic("no share index outside the group")
+}
+
+// unsolicitedJust: the well-formed justification bundle a dealer could send
+// although nobody complained (a true share for one holder); the fault Just is
+// then applied to it.
+func (sc *scen) unsolicitedJust(p *party) *dkg.JustificationBundle {
+	if p.oidx < 0 || p.gen == nil || len(p.gen.VerifPriCoeffs()) == 0 {
+		return nil
+	}
+	var h *party
+	if p.f.Victim >= 0 && sc.parties[p.f.Victim].nidx >= 0 {
+		h = sc.parties[p.f.Victim]
+	}
+	if h == nil {
+		for _, x := range sc.parties {
+			if x.nidx >= 0 && x.id != p.id {
+				h = x
+				break
+			}
+		}
+	}
+	if h == nil {
+		return nil
+	}
+	return &dkg.JustificationBundle{DealerIndex: uint32(p.oidx), SessionID: append([]byte{}, sc.nonce...),
+		Justifications: []dkg.Justification{{ShareIndex: uint32(h.nidx), Share: sc.trueShare(p, uint32(h.nidx))}}}
+}
+
 func (sc *scen) mutateJusts(p *party, base *dkg.JustificationBundle) []*dkg.JustificationBundle {
+	if base == nil && p.faulty && p.f.Unsol {
+		base = sc.unsolicitedJust(p)
+	}
 	if base == nil {
 		return nil
 	}
@@ -887,6 +997,7 @@ func (sc *scen) run() {
 	}
 	// ---- justification phase
 	var justBoard []*dkg.JustificationBundle
+	spoke := map[int]bool{} // parties whose generator reached the point where it may produce justifications
 	for _, p := range sc.parties {
 		if p.ended {
 			continue
@@ -924,7 +1035,14 @@ func (sc *scen) run() {
 			continue
 		}
 		if p.oidx >= 0 {
+			spoke[p.id] = true
 			justBoard = append(justBoard, sc.mutateJusts(p, jb)...)
+		}
+	}
+	// a faulty dealer whose own generator stopped or finished earlier can still broadcast in the justification phase
+	for _, p := range sc.parties {
+		if p.faulty && p.f.Unsol && p.oidx >= 0 && !spoke[p.id] {
+			justBoard = append(justBoard, sc.mutateJusts(p, nil)...)
 		}
 	}
 	// ---- finish phase
@@ -1163,7 +1281,7 @@ func (sc *scen) mustDisqualify(d *party) bool {
 	victimHonest := d.f.Victim >= 0 && !sc.parties[d.f.Victim].faulty && d.f.Victim != d.id
 	unjustified := d.f.Just == jMissing || d.f.Just == jBadShare || d.f.Just == jWrongSid || d.f.Just == jConflict || d.f.Just == jForgedSig
 	switch d.f.Deal {
-	case dAbsent, dConflict, dForgedSig, dWrongSid, dWrongThr, dBadIndex, dBadPublic:
+	case dAbsent, dConflict, dForgedSig, dWrongSid, dWrongThr, dBadIndex, dBadIndexAt, dBadPublic:
 		return true
 	case dBadShare, dMisdirected:
 		return victimHonest && unjustified
@@ -1330,7 +1448,7 @@ func main() {
 	var cases []string
 	caseID := 0
 	maxN := 5
-	nD, nE, nSet := 180, 40, 150
+	nD, nE, nSet := 212, 40, 150
 	if o.Thorough {
 		maxN = 7
 		nD, nE, nSet = 1500, 200, 600
@@ -1410,6 +1528,36 @@ func pedersenBatch(e *env, n int, maxN int, exhaustive bool, cases *[]string, ca
 		for j := 0; j < jNumFaults; j++ {
 			one(kind, rng.Chance(30), dBadShare+rng.Intn(2), rHonest, j)
 		}
+	}
+	// two faulty dealers, n=5 t=3 (fresh, node indices with gaps): one lists an out-of-range share index
+	// which sorts after `pos` valid deals (so honest holders listed before it have accepted their share and
+	// those after it have not, while all of them evict the dealer), the other is honest until the justification phase and then broadcasts a
+	// justification bundle nobody asked for, with every justification fault of the menu
+	two := func(fast bool, pos, j int) {
+		e.forceIdx = []int{0, 2, 4, 6, 8}
+		sc := newScen(e, "fresh", fast, 5, 3, 5, 3)
+		e.forceIdx = nil
+		sc.assignFaults(2, func(i int) (int, int, int) {
+			if i == 0 {
+				return dBadIndexAt, rHonest, jHonest
+			}
+			return dHonest, rHonest, j
+		})
+		for _, p := range sc.parties {
+			if p.faulty && p.f.Deal == dBadIndexAt {
+				p.f.Pos, p.f.Unsol = pos, false
+			} else if p.faulty {
+				p.f.Unsol = true
+			}
+		}
+		e.runScen(sc, cases, caseID)
+		count++
+	}
+	for j := 0; j < jNumFaults; j++ {
+		for pos := 1; pos <= 3; pos++ {
+			two(false, pos, j)
+		}
+		two(true, 2, j)
 	}
 	if exhaustive {
 		// n = 3 (t = 2, 3) and n = 4 (t = 3, 4): every assignment of a deal fault x justification fault
